@@ -190,7 +190,15 @@ class Model():
         else:
             if asset.name in self.asset_names:
                 if allow_duplicate_names:
-                    asset.name = asset.name + ':' + str(asset.id)
+                    new_name = asset.name + ':' + str(asset.id)
+                    # The id suffix alone does not make the name unique if
+                    # another asset was explicitly given that very name.
+                    counter = 1
+                    while new_name in self.asset_names:
+                        new_name = (asset.name + ':' + str(asset.id) + ':'
+                            + str(counter))
+                        counter += 1
+                    asset.name = new_name
                 else:
                     raise ValueError(
                         f'Asset name {asset.name} is a duplicate'
